@@ -26,8 +26,8 @@ TRUSTED_BASE = [
 
 # per property: (family, quick count, build) ; thorough multiplies the count
 PROPS = {
-    "C01": dict(fams=[("rt01", 3000, "fast"), ("print", 600, "fast"), ("chars", 1, "fast"), ("rtwide", 1, "fast"), ("rt01", 800, "nofast")], mult=20),
-    "C02": dict(fams=[("rt02", 3000, "fast"), ("rtall", 1, "fast"), ("chars", 1, "fast"), ("rtwide", 1, "fast"), ("opts", 1, "fast")], mult=10),
+    "C01": dict(fams=[("rt01", 3000, "fast"), ("print", 600, "fast"), ("chars", 1, "fast"), ("rtwide", 1, "fast"), ("rt01", 800, "nofast"), ("specrd", 2500, "fast")], mult=20),
+    "C02": dict(fams=[("rt02", 3000, "fast"), ("rtall", 1, "fast"), ("chars", 1, "fast"), ("rtwide", 1, "fast"), ("opts", 1, "fast"), ("specrd", 2500, "fast")], mult=10),
     "C03": dict(fams=[("short", 1, "fast"), ("deep", 1, "fast"), ("malformed", 2500, "fast"), ("text", 400, "fast"), ("escapes", 1, "fast"), ("numshort", 1, "fast"), ("num", 3000, "fast"), ("num", 1000, "nofast"), ("faults", 60, "fast")], mult=10, special="abort"),
     "C04": dict(fams=[("serde", 1500, "fast")], mult=20),
     "C05": dict(fams=[("num", 6000, "fast"), ("numshort", 1, "fast"), ("num", 3000, "nofast"), ("numshort", 1, "nofast")], mult=20),
@@ -369,7 +369,7 @@ def run_abort_probes(workdir):
     import binascii
     jobs = []
     for o in openers:
-        for ro in ("0011100000", "1000011101"):
+        for ro in ("0011100000", "1000111101"):
             for api in ("v1", "d1", "r:v:3000"):
                 text = (o * (1000000 // max(1, len(o)))).encode()
                 jobs.append((o, ro, api, text))
@@ -381,7 +381,7 @@ def run_abort_probes(workdir):
                 jobs.append(("flat " + opener + body + "..." + tl, "0011100000", api, (opener + body * 400000 + tl).encode()))
     mix = ("('`,[#(" * 150000).encode()
     jobs.append(("mix", "0011100000", "v1", mix))
-    jobs.append(("mix", "1000011101", "d1", mix))
+    jobs.append(("mix", "1000111101", "d1", mix))
     def one(job):
         o, ro, api, text = job
         line = "parse 1 i0 %s %s %s\n" % (ro, api, binascii.hexlify(text).decode())
